@@ -132,6 +132,68 @@ def quic_pair(case, seed):
     return dict(out, v="held")
 
 
+def tls_conn(case, seed):
+    """split_cipher_suite's result is only half of the resolution: Session.generate_keys turns it into the arguments of the record decryptor (bulk class, key / MAC / tag
+    / block lengths).  One real connection per (accepted suite, valid version): the parameters the decryptor is constructed with must be what the code point's IANA name
+    denotes, and records of several lengths (a sub-block one, one block, many blocks) must be exported exactly - a cipher set up with another block, tag, MAC or key
+    length exports nothing or garbage."""
+    import random
+    from vlib import e2e, engine, monitors, outparse, scene, tcpcap, tlssynth
+    rng = random.Random(engine.subseed("C14", seed, case["id"]))
+    v, code = case["v"], case["code"]
+    name = suites.REGISTRY[code]
+    p = suites.parse_name(name)
+    bl = p["block"] or 16
+    lens = [1, bl - 1, bl, bl + 1, 3 * bl + 5, rng.randrange(0, 700)]
+    rng.shuffle(lens)
+    app = [("cs"[i % 2] if i < 4 else rng.choice("cs"), rng.randbytes(n)) for i, n in enumerate(lens)]
+    spec = tlssynth.Spec(version=v, suite=code, app=app, etm=case["rep"] % 2 == 1, resumed=case["rep"] % 3 == 2, sid_len=[32, 0, 8][case["rep"] % 3])
+    conn = tlssynth.build_conn(spec, rng)
+    ep = tcpcap.random_ep(rng, sport=443)
+    segs = tcpcap.segments(conn.events, ep, tcpcap.make_cutter(rng, rng.choice(["mss", "records", "whole"]), conn.events))
+    fl = scene.tls_flow(conn, ep, segs)
+    items = scene.stamp(scene.merge([fl], rng, "concat"), rng)
+    mon = monitors.TlsStateMonitor()
+    res, files, argv = e2e.run_capture(scene.capture(items), scene.keylog_text([fl], rng), [], child_setup=mon.install)
+    out = {"cls": ["tls-conn", suites.VNAME[v], f"{code:04X}"], "classes": [f"tls-conn-{suites.VNAME[v]}-{code:04X}"], "units": 1, "tags": ["tls-conn", f"ver:{suites.VNAME[v]}", f"mode:{p['mode']}"],
+           "sample": {"case": case["id"], "suite": f"{code:04X} {name}", "version": suites.VNAME[v], "record lengths": lens}, "nontrivial": True}
+    fail = e2e.run_failed(res)
+    if fail:
+        return dict(out, v="inconclusive" if fail.startswith("INCONCLUSIVE") else "violated", msg=fail, files=files)
+    msgs = []
+    e = _expect(p)
+    inits = [x for x in monitors.parse_events(res.events) if x.get("ev") == "init"]
+    observed = 0
+    for x in inits[:1]:
+        # each comparison only when the decryptor exposes the attribute (an attribute that moved is unobservable, not wrong)
+        if x.get("bulk") is not None:
+            observed += 1
+            if x["bulk"] != e["cipher"]:
+                msgs.append(f"record decryptor constructed with bulk cipher {x['bulk']}, name denotes {e['cipher']}")
+        if x.get("key_len") is not None:
+            observed += 1
+            if x["key_len"] != e["key_len"]:
+                msgs.append(f"record decryptor constructed with key length {x['key_len']}, name denotes {e['key_len']}")
+        if p["mode"] == "CBC" and x.get("block") is not None:
+            observed += 1
+            if x["block"] not in (8 * p["block"], p["block"]):
+                msgs.append(f"record decryptor constructed with block length {x['block']}, the cipher {p['cipher']} has blocks of {8 * p['block']} bits")
+        if p["aead"] and x.get("tag") is not None:
+            observed += 1
+            if x["tag"] != e["tag"]:
+                msgs.append(f"record decryptor constructed with tag length {x['tag']}, name denotes {e['tag']}")
+        if not p["aead"] and x.get("mac_len") is not None:
+            observed += 1
+            if x["mac_len"] != p["mac_len"]:
+                msgs.append(f"record decryptor constructed with MAC length {x['mac_len']}, name denotes {p['mac_len']} ({p['mac']})")
+    out["mon"] = {"decryptor.constructor_parameters": observed, "tls.connections_per_suite_version": 1}
+    msgs += e2e.check_tls_streams(outparse.Analysis(res.out), conn, ep, None)
+    if msgs:
+        return dict(out, v="violated", msg=f"{suites.VNAME[v]} {code:04X} {name}: the connection is not handled with the parameters the name denotes - " + "; ".join(msgs[:3]),
+                    files=dict(files, argv="\n".join(argv)))
+    return dict(out, v="held")
+
+
 def build(tier, seed):
     chunk = 4096
     cases = [{"id": f"codes-{lo:04x}-{lo + chunk - 1:04x}", "lo": lo, "hi": lo + chunk} for lo in range(0, 65536, chunk)]
@@ -139,8 +201,14 @@ def build(tier, seed):
     for r in range(12 if tier == "thorough" else 1):
         cases += [{"id": f"quic-pair{r}-{f:04x}-{s_:04x}", "pair": True, "first": f, "sel": s_} for f in PAIR_FIRST for s_ in (0x1301, 0x1302, 0x1303, 0x1304)]
 
+    mx = suites.matrix()
+    for r in range(6 if tier == "thorough" else 1):
+        cases += [{"id": f"tls-conn{r}-{suites.VNAME[v]}-{code:04x}", "tls": True, "v": v, "code": code, "rep": r + i} for i, (v, code, _n, _p) in enumerate(mx)]
+
     def evalfn(case):
         logging.disable(logging.CRITICAL)
+        if case.get("tls"):
+            return tls_conn(case, seed)
         if case.get("pair"):
             return quic_pair(case, seed)
         if case.get("quic"):
@@ -173,14 +241,15 @@ def build(tier, seed):
         return res
 
     def extra(results):
-        acc = sorted({c for r in results for c in (r.get("classes") or []) if not c.startswith("rejected") and not c.startswith("quic-")})
+        acc = sorted({c for r in results for c in (r.get("classes") or []) if not c.startswith("rejected") and not c.startswith("quic-") and not c.startswith("tls-conn")})
         gone = [f"{c:04X}" for c in suites.SUPPORTED if f"{c:04X}" not in acc]
         return {"accepted_code_points": len(acc), "pinned_supported": len(suites.SUPPORTED), "accepted_set_shrank_vs_pinned": gone,
                 "accepted_new_vs_pinned": [c for c in acc if int(c, 16) not in suites.SUPPORTED],
+                "tls_connections_per_suite_version": len({c for r in results for c in (r.get("classes") or []) if c.startswith("tls-conn")}),
                 "quic_resolver_accepts": sorted({c[5:] for r in results for c in (r.get("classes") or []) if c.startswith("quic-") and not c.startswith("quic-rejected")})}
 
     return dict(cases=cases, evalfn=evalfn, level="exploration", exhaustive=True, min_nontrivial=16,
-                rule="all 65 536 two-byte code points, each passed to the real split_cipher_suite and to the QUIC path's own resolver (QuicSession.set_tls_decryptors) under the contract; and, for the QUIC path, one real connection per ordered pair (first offered suite, selected suite) exported exactly; a class is an "
+                rule="all 65 536 two-byte code points, each passed to the real split_cipher_suite and to the QUIC path's own resolver (QuicSession.set_tls_decryptors) under the contract; for the QUIC path, one real connection per ordered pair (first offered suite, selected suite) exported exactly; and one real TLS connection per (accepted suite, valid version) - 462 combinations - whose record decryptor must be constructed with the bulk cipher, key, block, tag and MAC lengths the name denotes and whose records (sub-block, one block, many blocks) must be exported exactly; a class is an "
                      "accepted code point (checked against registry + independent name parser) or a rejected 4096-block; every case is non-trivial",
                 assumptions=["registry/iana_tls_cipher_suites.json is a faithful copy of the IANA registry (cross-checked at setup "
                              "against the scapy and dpkt copies)", "the harness's structural name parser"], extra=extra)
